@@ -206,6 +206,16 @@ func init() {
 					emit("req", []byte("POST / HTTP/1.1\r\nHost: h\r\nContent-Type: "+ct+"\r\n"+fr), []byte{byte(r.Intn(256))}, []byte{byte(r.Intn(64))})
 				}
 			}
+			// trailer sections smaller and larger than the reader's buffer (the header block itself fits)
+			for _, tlen := range []int{0, 50, 120, 200, 300, 600, 5000} {
+				for _, k := range []byte{3, 4, 7, 15, 63} {
+					tr := "X-T: " + strings.Repeat("t", tlen) + "\r\n"
+					for _, fin := range []string{"\r\n", "", "\r", "X-U: 1\r\n\r\n"} {
+						emit("req", []byte("POST / HTTP/1.1\r\nHost: h\r\nTransfer-Encoding: chunked\r\nTrailer: X-T\r\n\r\n3\r\nabc\r\n0\r\n"+tr+fin), []byte{k}, []byte{byte(r.Intn(64))})
+						emit("resp", []byte("HTTP/1.1 200 OK\r\nTransfer-Encoding: chunked\r\nTrailer: X-T\r\n\r\n3\r\nabc\r\n0\r\n"+tr+fin), []byte{k}, []byte{byte(r.Intn(64))})
+					}
+				}
+			}
 			// truncated / malformed percent-escapes at the very end of a host, an IPv6 literal or a zone
 			for _, host := range []string{"example.co%6", "example.co%", "example.co%zz", "example.co%6g", "ex%2", "%", "%4", "a%4g", "%41", "[fe80::1%25en%6]", "[fe80::1%25]", "[fe80::1%25en%]", "[fe80::1%2]", "[::1%6]", "h%6:80", "h:80%6", "u@h%6"} {
 				for _, f := range []string{"http://%s/", "//%s", "%s/x", "http://%s", "https://%s?q", "http://%s#f"} {
